@@ -389,6 +389,34 @@ def check(repo, rep):
                                 and m_[0] == 'q' and r1 is not None and r1[0] == 'r' and ms(r1[1]) and r1[2] == ('c', 3600000) and m_[2] == ('c', 60000)
                                 and s2[0] == 'q' and r2 is not None and r2[0] == 'r' and r2[1] == m_[1] and r2[2] == ('c', 60000) and s2[2] == ('c', 1000)
                                 and i2[0] == 'r' and i2[1] == s2[1] and i2[2] == ('c', 1000))
+            if not chain_ok and all(x is not None for x in (H, M, S_, I_)):
+                # not the textbook chain: compare the four field terms with the reference decomposition on test durations
+                from ..termeval import evaluate, NotEvaluable
+                verdict = True
+                for secs_v in (0, 0.9996, 59.9996, 61.5, 3599.999, 3723.25, 86399.999, 86400.0, 110662.5, 360000.001):
+                    total = int(secs_v * 1000)
+                    ref = (total // 3600000, total % 3600000 // 60000, total % 60000 // 1000, total % 1000)
+                    try:
+                        got = []
+                        extra = []
+                        for term_ in (H, M, S_, I_):
+                            val_, lv_ = evaluate(term_, {sec: secs_v}, mode='frac')
+                            got.append(val_)
+                            extra += lv_
+                    except NotEvaluable:
+                        verdict = None
+                        break
+                    if extra:
+                        verdict = None
+                        break
+                    if tuple(got) != ref:
+                        verdict = False
+                        detail += ' ; for %r s the fields are %s, the whole-millisecond decomposition is %s' % (secs_v, tuple(got), ref)
+                        break
+                if verdict is None:
+                    rep.unknown('make_duration_formatter: the h/m/s/i fields (%s) are computed in a way the analyser cannot evaluate' % detail[:160])
+                    continue
+                chain_ok = verdict
             rep.ob('%h/%m/%s/%i decompose int(seconds*1000) by 3 600 000, 60 000 and 1 000 in that order (minutes, seconds < 60, millis < 1000, recomposing to the whole-millisecond value)', chain_ok,
                    cx.where('util', fnode), 'make_duration_formatter[hmsi]:chain', detail, sample=dict(directive='%h:%m:%s.%i', fields=detail[:200]))
     for k, n in seen.items():
